@@ -24,7 +24,7 @@
    format has no place for the distinction): tagged_blocks=None beside a layer info, layer_count=0
    with (empty) lists, opacity/kind without overlay colour, presence flag without parameters. *)
 From PsdV Require Import Base.Prelude Psd.Codec Psd.Model Psd.Legacy Psd.Proofs Psd.Leaf Psd.LeafProofs Psd.Descriptor Psd.DescriptorProofs Psd.Effects Psd.EffectsProofs
-  Psd.Patterns Psd.PatternsProofs.
+  Psd.Patterns Psd.PatternsProofs Psd.Struct Psd.Adjust Psd.AdjustProofs Psd.Vector Psd.VectorProofs Psd.Typed.
 From Coq Require Import ZArith List Bool Lia.
 Import ListNotations.
 Open Scope Z_scope.
@@ -340,6 +340,159 @@ Proof.
   split; vm_compute; reflexivity.
 Qed.
 Print Assumptions pattern_roundtrip_refuted.
+
+(* ------------------------------------------------------------------ Stage 3 (1): adjustment layers (Psd/Adjust.v)
+   BrightnessContrast, ColorBalance, Exposure, HueSaturation, SelectiveColor, PhotoFilter (versions 2 and 3) as
+   fixed layouts (Psd/Struct.v), ChannelMixer, Levels (29 records + any number of extra levels), Curves (any
+   number of curves with 2..19 points or 256-entry maps, version 1 with its 'Crv ' extra marker, version 4),
+   GradientMap (versions 1 and 3, any number of colour / transparency stops), ColorLookup (descriptor based).
+   [read (write x) = x] on the content of the block (the payload is read from exactly those bytes). *)
+Theorem fixed_layout_roundtrip : forall sp vs b rest,
+  wf_fields sp vs = true -> pack_fields sp vs = Ok b -> unpack_fields sp (b ++ rest) = Ok (vs, rest).
+Proof. exact fields_rt. Qed.
+Print Assumptions fixed_layout_roundtrip.
+
+Theorem adjustment_roundtrip : forall pad a bs n,
+  wf_adj a = true -> write_adj pad a = Ok (bs, n) -> reread_adj a bs = Ok a.
+Proof. exact adj_rt. Qed.
+Print Assumptions adjustment_roundtrip.
+
+Theorem curves_roundtrip : forall c bs n, wf_curves c = true -> write_curves c = Ok (bs, n) -> read_curves bs = Ok c.
+Proof. exact curves_rt. Qed.
+Print Assumptions curves_roundtrip.
+Theorem levels_roundtrip : forall version recs extra bs n,
+  wf_levels version recs extra = true -> write_levels version recs extra = Ok (bs, n) ->
+  read_levels bs = Ok (version, recs, extra).
+Proof. exact levels_rt. Qed.
+Print Assumptions levels_roundtrip.
+Theorem gradient_map_roundtrip : forall g bs n,
+  wf_gradient g = true -> write_gradient g = Ok (bs, n) -> read_gradient bs = Ok g.
+Proof. exact gradient_rt. Qed.
+Print Assumptions gradient_map_roundtrip.
+Theorem color_lookup_roundtrip : forall units t pad ver d bs n,
+  wf_terms t = true -> wf_dval units d = true -> ostype_of d = OS_Objc ->
+  write_color_lookup t pad ver 16 d = Ok (bs, n) -> read_color_lookup units t bs = Ok (ver, 16, d, t).
+Proof. exact color_lookup_rt. Qed.
+Print Assumptions color_lookup_roundtrip.
+
+(* any modelled payload inside its container: the TaggedBlock / ImageResource round trip composed with the
+   payload's own (generic in the payload: instantiate with write_adj / reread_adj, write_dblock / read_dblock, ...) *)
+Theorem payload_in_tagged_block_roundtrip : forall X v pad sg key (w : W) (rd : stream -> res X) (x : X) bs n rest,
+  (pad = 1 \/ pad = 2 \/ pad = 4) -> memz sg model_tb_sigs = true -> wtruth w ->
+  (forall body m, w = Ok (body, m) -> rd body = Ok x) ->
+  write_payload_block v pad sg key w = Ok (bs, n) ->
+  read_payload_block rd v pad (bs ++ rest) = Ok (Some (sg, key, x, rest)).
+Proof. intros X. exact (@payload_block_rt X). Qed.
+Print Assumptions payload_in_tagged_block_roundtrip.
+Theorem payload_in_image_resource_roundtrip : forall enc_s dec_s X sg key name (w : W) (rd : stream -> res X) (x : X) bs n rest,
+  memz sg model_res_sigs = true -> wf_name enc_s dec_s name = true -> wtruth w ->
+  (forall body m, w = Ok (body, m) -> rd body = Ok x) ->
+  write_payload_resource enc_s sg key name w = Ok (bs, n) ->
+  read_payload_resource dec_s rd (bs ++ rest) = Ok (sg, key, name, x, rest).
+Proof. intros enc_s dec_s X. exact (@payload_resource_rt enc_s dec_s X). Qed.
+Print Assumptions payload_in_image_resource_roundtrip.
+Theorem adjustment_block_roundtrip : forall v pad sg key a bs n rest,
+  (pad = 1 \/ pad = 2 \/ pad = 4) -> memz sg model_tb_sigs = true -> wf_adj a = true ->
+  write_payload_block v pad sg key (write_adj (inner_padding pad) a) = Ok (bs, n) ->
+  read_payload_block (reread_adj a) v pad (bs ++ rest) = Ok (Some (sg, key, a, rest)).
+Proof.
+  intros v pad sg key a bs n rest Hp Hs Hwf H.
+  apply (payload_block_rt v pad sg key (write_adj (inner_padding pad) a) (reread_adj a) a bs n rest Hp Hs
+           (wtruth_adj (inner_padding pad) a)); [|exact H].
+  intros body m Hb. exact (adj_rt (inner_padding pad) a body m Hwf Hb).
+Qed.
+Print Assumptions adjustment_block_roundtrip.
+
+Definition ex_curves : curves :=
+  mkCurves false 1 5 [[0; 0; 255; 255]; [0; 0; 10; 20; 30; 40; 50; 60; 70; 80; 90; 100; 110; 120; 130; 140; 150; 160; 170; 180; 190; 200;
+                                          210; 220; 230; 240; 250; 251; 252; 253; 254; 254; 255; 255; 65535; 0; 1; 2]]
+           (Some (4, [(0, false, [0; 0; 255; 255]); (2, false, [])])).
+Example adjustment_roundtrip_satisfiable :
+  wf_adj (ACurves ex_curves) = true /\ (exists bs n, write_adj 4 (ACurves ex_curves) = Ok (bs, n) /\ n = 124) /\
+  wf_adj (ALevels 2 (repeat [0; 255; 0; 255; 100] 31) (Some 3)) = true /\
+  wf_adj (AStruct SPhfl [3; 1; 2; 3; 25; 1]) = true /\ wf_adj (AStruct SPhfl [2; 0; 1; 2; 3; 4; 25; 1]) = true.
+Proof.
+  split; [vm_compute; reflexivity|]. split; [do 2 eexists; split; [vm_compute; reflexivity|reflexivity]|].
+  split; [vm_compute; reflexivity|]. split; vm_compute; reflexivity.
+Qed.
+
+(* asymmetric shapes wf_adj excludes: a curve with 20 points is written but refused by the reader's assertion; a
+   version-4 Curves that carries an extra marker writes it and never reads it back; a version-1 GradientMap does not
+   store its method *)
+Theorem adjustment_roundtrip_refuted :
+  (exists c bs n, len (hd [] (cv_data c)) = 40 /\ write_curves c = Ok (bs, n) /\ read_curves bs = Err AssertErr) /\
+  (exists c bs n c', cv_version c = 4 /\ cv_extra c <> None /\ write_curves c = Ok (bs, n) /\ read_curves bs = Ok c' /\ cv_extra c' = None) /\
+  (exists g bs n g', hd 0 (gm_head g) = 1 /\ gm_method g = 0x4c6e7220 /\ write_gradient g = Ok (bs, n) /\
+                     read_gradient bs = Ok g' /\ gm_method g' = sig_Gcls).
+Proof.
+  split; [|split].
+  - exists (mkCurves false 4 1 [repeat 7 40] None). do 2 eexists. split; [reflexivity|].
+    split; [vm_compute; reflexivity|]. vm_compute. reflexivity.
+  - exists (mkCurves false 4 0 [] (Some (4, []))). do 3 eexists. split; [reflexivity|]. split; [discriminate|].
+    split; [vm_compute; reflexivity|]. split; [vm_compute; reflexivity|reflexivity].
+  - exists (mkGrad [1; 0; 0] 0x4c6e7220 [] [] [] [2; 0; 32; 0; 0; 0; 0; 0; 0; 0; 0; 0; 0; 0; 0; 0; 0]). do 3 eexists.
+    split; [reflexivity|]. split; [reflexivity|]. split; [vm_compute; reflexivity|]. split; [vm_compute; reflexivity|reflexivity].
+Qed.
+Print Assumptions adjustment_roundtrip_refuted.
+
+(* ------------------------------------------------------------------ Stage 3 (2): vector paths (Psd/Vector.v)
+   Path records are 26 bytes each: selector + a fixed layout (fill rule / initial fill / clipboard / knot), a sub-path
+   record is its 24-byte header record followed by its knots.  The path reader loops while 26 bytes remain, so what the
+   padding leaves (< 26 bytes) is not taken for a record. *)
+Theorem path_record_roundtrip : forall r bs n rest,
+  wf_prec r = true -> write_prec r = Ok (bs, n) ->
+  read_prec (bs ++ rest) = Ok (r, rest) /\ n = len bs /\ len bs mod 26 = 0.
+Proof.
+  intros r bs n rest Hwf H. destruct (prec_rt r bs n rest Hwf H) as (Hr & _ & Hm).
+  split; [exact Hr|]. split; [exact (wtruth_prec r bs n H)|exact Hm].
+Qed.
+Print Assumptions path_record_roundtrip.
+Theorem vector_mask_setting_roundtrip : forall flags p bs n,
+  forallb wf_prec p = true -> write_vmask 3 flags p = Ok (bs, n) -> read_vmask bs = Ok (3, flags, p).
+Proof. intros flags p bs n Hwf H. exact (vmask_rt 3 flags p bs n eq_refl Hwf H). Qed.
+Print Assumptions vector_mask_setting_roundtrip.
+Theorem vector_stroke_content_roundtrip : forall units t pad key version d bs n,
+  wf_terms t = true -> wf_dval units d = true -> ostype_of d = OS_Objc ->
+  write_vscg t pad key version d = Ok (bs, n) -> read_vscg units t bs = Ok (key, version, d, t).
+Proof. exact vscg_rt. Qed.
+Print Assumptions vector_stroke_content_roundtrip.
+Theorem vector_mask_block_roundtrip : forall v pad sg key flags p bs n rest,
+  (pad = 1 \/ pad = 2 \/ pad = 4) -> memz sg model_tb_sigs = true -> forallb wf_prec p = true ->
+  write_payload_block v pad sg key (write_vmask 3 flags p) = Ok (bs, n) ->
+  read_payload_block read_vmask v pad (bs ++ rest) = Ok (Some (sg, key, (3, flags, p), rest)).
+Proof.
+  intros v pad sg key flags p bs n rest Hp Hs Hwf H.
+  apply (payload_block_rt v pad sg key (write_vmask 3 flags p) read_vmask (3, flags, p) bs n rest Hp Hs (wtruth_vmask 3 flags p)); [|exact H].
+  intros body m Hb. exact (vmask_rt 3 flags p body m eq_refl Hwf Hb).
+Qed.
+Print Assumptions vector_mask_block_roundtrip.
+Theorem vector_stroke_content_block_roundtrip : forall units t v pad sg key vkey version d bs n rest,
+  (pad = 1 \/ pad = 2 \/ pad = 4) -> memz sg model_tb_sigs = true ->
+  wf_terms t = true -> wf_dval units d = true -> ostype_of d = OS_Objc ->
+  write_payload_block v pad sg key (write_vscg t (inner_padding pad) vkey version d) = Ok (bs, n) ->
+  read_payload_block (read_vscg units t) v pad (bs ++ rest) = Ok (Some (sg, key, (vkey, version, d, t), rest)).
+Proof.
+  intros units t v pad sg key vkey version d bs n rest Hp Hs Ht Hd Ho H.
+  apply (payload_block_rt v pad sg key (write_vscg t (inner_padding pad) vkey version d) (read_vscg units t) (vkey, version, d, t) bs n rest Hp Hs
+           (wtruth_vscg t (inner_padding pad) vkey version d)); [|exact H].
+  intros body m Hb. exact (vscg_rt units t (inner_padding pad) vkey version d body m Ht Hd Ho Hb).
+Qed.
+Print Assumptions vector_stroke_content_block_roundtrip.
+
+Definition ex_path : list prec :=
+  [PRec 6 []; PRec 8 [1];
+   PSub 0 [-1; 0; 0; 0; 0; 0; 0; 0; 0; 0; 0; 0; 0; 0]
+        [(1, [0; 16777216; -16777216; 8388608; 2147483647; -2147483648]); (2, [1; 2; 3; 4; 5; 6])];
+   PRec 7 [1; 2; 3; 4; 5]; PSub 3 [3; 65535; 4294967295; 7; 1; 2; 3; 4; 5; 6; 7; 8; 9; 10] []].
+Example vector_mask_roundtrip_satisfiable :
+  forallb wf_prec ex_path = true /\ exists bs, write_vmask 3 5 ex_path = Ok (bs, 192) /\ len bs = 192.
+Proof. split; [vm_compute; reflexivity|]. eexists. split; vm_compute; reflexivity. Qed.
+
+(* what the guards exclude: only version 3 is read back (the writer emits any version) *)
+Theorem vector_mask_roundtrip_refuted :
+  exists bs n, write_vmask 2 0 [] = Ok (bs, n) /\ read_vmask bs = Err AssertErr.
+Proof. do 2 eexists. split; vm_compute; reflexivity. Qed.
+Print Assumptions vector_mask_roundtrip_refuted.
 
 (* back-patching the length = emitting the inner bytes after the packed length *)
 Theorem length_block_backpatch : forall buf lb body,
